@@ -405,6 +405,160 @@ func discoverExits(repo string) ([]string, error) {
 	return nil, fmt.Errorf("transport.go: (*connPool).discover not found")
 }
 
+// selectVersionExpr translates (ApiKey).SelectVersion into a Lean if-chain.  Accepted subset: a prologue of
+// `x := k.MinVersion()` / `y := k.MaxVersion()` assignments (any local names), then either a tagless switch or an
+// if / else-if chain whose conditions are comparisons between those locals and the two parameters and whose
+// bodies are a single `return <local or parameter>`.  Identifiers are canonicalised (cmin, cmax, bmin, bmax) so
+// that renaming locals or parameters changes nothing.
+func selectVersionExpr(repo string) (string, error) {
+	fset := token.NewFileSet()
+	f, err := parser.ParseFile(fset, filepath.Join(repo, "protocol", "protocol.go"), nil, 0)
+	if err != nil {
+		return "", err
+	}
+	for _, d := range f.Decls {
+		fd, ok := d.(*ast.FuncDecl)
+		if !ok || fd.Body == nil || fd.Name.Name != "SelectVersion" || recvName(fd) != "ApiKey" {
+			continue
+		}
+		names := map[string]string{}
+		var params []string
+		for _, fl := range fd.Type.Params.List {
+			for _, n := range fl.Names {
+				params = append(params, n.Name)
+			}
+		}
+		if len(params) != 2 {
+			return "", fmt.Errorf("SelectVersion: expected two parameters")
+		}
+		names[params[0]], names[params[1]] = "bmin", "bmax"
+		recv := fd.Recv.List[0].Names[0].Name
+		term := func(e ast.Expr) (string, error) {
+			switch x := e.(type) {
+			case *ast.Ident:
+				if c, ok := names[x.Name]; ok {
+					return c, nil
+				}
+			case *ast.CallExpr:
+				switch exprString(x.Fun) {
+				case recv + ".MinVersion":
+					return "cmin", nil
+				case recv + ".MaxVersion":
+					return "cmax", nil
+				}
+			case *ast.ParenExpr:
+				return "", fmt.Errorf("parenthesised term")
+			}
+			return "", fmt.Errorf("SelectVersion: term %s outside the translated subset", exprString(e))
+		}
+		cond := func(e ast.Expr) (string, error) {
+			b, ok := e.(*ast.BinaryExpr)
+			if !ok {
+				return "", fmt.Errorf("SelectVersion: condition outside the translated subset")
+			}
+			op := map[token.Token]string{token.LSS: "<", token.GTR: ">", token.LEQ: "≤", token.GEQ: "≥", token.EQL: "=", token.NEQ: "≠"}[b.Op]
+			if op == "" {
+				return "", fmt.Errorf("SelectVersion: operator %s outside the translated subset", b.Op)
+			}
+			l, err := term(b.X)
+			if err != nil {
+				return "", err
+			}
+			r, err := term(b.Y)
+			if err != nil {
+				return "", err
+			}
+			return l + " " + op + " " + r, nil
+		}
+		ret := func(body []ast.Stmt) (string, error) {
+			if len(body) == 1 {
+				if rs, ok := body[0].(*ast.ReturnStmt); ok && len(rs.Results) == 1 {
+					return term(rs.Results[0])
+				}
+			}
+			return "", fmt.Errorf("SelectVersion: case body outside the translated subset")
+		}
+		var chain func(stmts []ast.Stmt) (string, error)
+		chain = func(stmts []ast.Stmt) (string, error) {
+			if len(stmts) == 0 {
+				return "", fmt.Errorf("SelectVersion: falls off the end")
+			}
+			switch x := stmts[0].(type) {
+			case *ast.AssignStmt:
+				if len(x.Lhs) == 1 && len(x.Rhs) == 1 {
+					if id, ok := x.Lhs[0].(*ast.Ident); ok {
+						c, err := term(x.Rhs[0])
+						if err != nil {
+							return "", err
+						}
+						names[id.Name] = c
+						return chain(stmts[1:])
+					}
+				}
+			case *ast.ReturnStmt:
+				return ret(stmts[:1])
+			case *ast.SwitchStmt:
+				if x.Tag != nil || x.Init != nil {
+					break
+				}
+				out, deflt := "", ""
+				for _, cl := range x.Body.List {
+					cc := cl.(*ast.CaseClause)
+					r, err := ret(cc.Body)
+					if err != nil {
+						return "", err
+					}
+					if cc.List == nil {
+						deflt = r
+						continue
+					}
+					if len(cc.List) != 1 {
+						return "", fmt.Errorf("SelectVersion: multi-expression case")
+					}
+					c, err := cond(cc.List[0])
+					if err != nil {
+						return "", err
+					}
+					out += "if " + c + " then " + r + " else "
+				}
+				if deflt == "" {
+					rest, err := chain(stmts[1:])
+					if err != nil {
+						return "", err
+					}
+					deflt = rest
+				}
+				return out + deflt, nil
+			case *ast.IfStmt:
+				c, err := cond(x.Cond)
+				if err != nil {
+					return "", err
+				}
+				r, err := ret(x.Body.List)
+				if err != nil {
+					return "", err
+				}
+				var rest string
+				switch e := x.Else.(type) {
+				case nil:
+					rest, err = chain(stmts[1:])
+				case *ast.BlockStmt:
+					rest, err = chain(append(append([]ast.Stmt{}, e.List...), stmts[1:]...))
+				case *ast.IfStmt:
+					rest, err = chain(append([]ast.Stmt{e}, stmts[1:]...))
+				}
+				if err != nil {
+					return "", err
+				}
+				return "if " + c + " then " + r + " else " + rest, nil
+			}
+			return "", fmt.Errorf("SelectVersion: statement outside the translated subset")
+		}
+		return chain(fd.Body.List)
+	}
+	return "", fmt.Errorf("protocol.go: (ApiKey).SelectVersion not found")
+}
+
 func extractRouting(repo, root string) error {
 	keys, err := apiKeyConsts(repo)
 	if err != nil {
@@ -607,6 +761,12 @@ func extractRouting(repo, root string) error {
 	fmt.Fprintf(&b, "def sendRequestCases : List SwitchCase := %s  -- %s\n\n", q(sendCases), strings.Join(sendCases, ", "))
 	b.WriteString("/-- case order of the type switch on the request in transport.go (*connPool).roundTrip -/\n")
 	fmt.Fprintf(&b, "def roundTripCases : List SwitchCase := %s  -- %s\n\n", q(rtCases), strings.Join(rtCases, ", "))
+	sv, err := selectVersionExpr(repo)
+	if err != nil {
+		return err
+	}
+	b.WriteString("/-- protocol/protocol.go (ApiKey).SelectVersion translated statement by statement: `cmin`/`cmax` are\n`k.MinVersion()`/`k.MaxVersion()`, `bmin`/`bmax` the two parameters (the broker's advertised range) -/\n")
+	fmt.Fprintf(&b, "def selectVersionSrc (cmin cmax bmin bmax : Int) : Int :=\n  %s\n\n", sv)
 	exits, err := discoverExits(repo)
 	if err != nil {
 		return err
